@@ -23,6 +23,13 @@ CLAUSES = ["C06"]
 ADAPTERS = ["ddpg", "td3", "td3_lap", "sac", "nature_dqn", "ddqn", "ddqn_per", "td7", "mrq"]
 
 
+def _T(rng, tier, name, short):
+    """Run length: thorough tier adds a share of long runs (deeper bound) for the cheaper routines."""
+    if tier == "thorough" and name not in ("pets", "mrq", "td7", "ppo", "cmaes") and rng.random() < 0.15:
+        return rng.choice([80, 150])
+    return rng.choice(short)
+
+
 TWIN = ["ddpg", "td3", "td3_lap", "sac", "nature_dqn", "ddqn", "ddqn_per", "td7"]
 
 
@@ -48,7 +55,7 @@ def make_plan(rng, tier, index):
             c["batch_size"] = 2
         return plan
     name = ADAPTERS[index % len(ADAPTERS)]
-    plan = trainplan.base_plan(rng, PROPERTY, CLAUSES, name, T=rng.choice([12, 20, 30]))
+    plan = trainplan.base_plan(rng, PROPERTY, CLAUSES, name, T=_T(rng, tier, name, [12, 20, 30]))
     plan["monitor"] = True
     plan["logger"] = True
     plan["supply_targets"] = rng.random() < 0.6
